@@ -217,7 +217,12 @@ def run(ctx):
     nraces = 0
     for test in ("TestVerifIngestRaceNoReload", "TestVerifIngestRaceReload"):
         rr = ctx.go_test(PKG, FILES, "lib", "^%s$" % test, env={"VERIF_RACE_MS": ms, "VERIF_OUT": os.path.join(ctx.scratch, "race.out")},
-                         race=True, timeout=1200)
+                         race=True, timeout=180)
+        st = ctx.stall_sites(rr)
+        if st:
+            ctx.violation("deadlock:stress:%s" % "+".join(st), "the stress run (%s) hung: goroutines blocked for good in %s" % (test, ", ".join(st)),
+                          {"dump": rr["out"][-6000:]})
+            continue
         for blk in re.split(r"={18}\n", rr["out"]):
             if "WARNING: DATA RACE" not in blk:
                 continue
@@ -237,16 +242,23 @@ def run(ctx):
             ctx.violation("stress:fail:%s" % test, "stress run failed (panic / deadlock?)", {"out": rr["out"][-3000:]})
     # connection vs sweep without gates: each registration must end in one of the two serial outcomes
     sp = os.path.join(ctx.scratch, "sweepmark.ndjson")
-    ctx.go_test(PKG, FILES, "lib", "^TestVerifSweepMarkStress$", env={"VERIF_OUT": sp, "VERIF_ROUNDS": 200 if thorough else 30}, timeout=900)
-    for x in ctx.read_results(sp):
+    rs = ctx.go_test(PKG, FILES, "lib", "^TestVerifSweepMarkStress$", env={"VERIF_OUT": sp, "VERIF_ROUNDS": 200 if thorough else 30}, timeout=240)
+    st = ctx.stall_sites(rs)
+    if st:
+        ctx.violation("deadlock:sweep-vs-connection:%s" % "+".join(st), "sweep racing with connections hung: goroutines blocked for good in %s" % ", ".join(st),
+                      {"dump": rs["out"][-6000:]})
+    for x in ([] if st else ctx.read_results(sp)):
         if x.get("kind") == "prop":
             ctx.violation("concurrent:sweep-vs-connection:%s" % x["prop"], "sweep racing with connections, outcome equals no serial order: %s" % x["detail"], x)
         elif x.get("kind") == "summary":
             ctx.stage("R", sweep_vs_connection={k: v for k, v in x.items() if k != "kind"})
     # duplicate burst without gates: 8 workers ingest one registration at the same instant; the outcome must be the serial one
     bp2 = os.path.join(ctx.scratch, "burst.ndjson")
-    ctx.go_test(PKG, FILES, "lib", "^TestVerifDuplicateBurst$", env={"VERIF_OUT": bp2, "VERIF_ROUNDS": 1500 if thorough else 250}, timeout=900)
-    for x in ctx.read_results(bp2):
+    rb = ctx.go_test(PKG, FILES, "lib", "^TestVerifDuplicateBurst$", env={"VERIF_OUT": bp2, "VERIF_ROUNDS": 1500 if thorough else 250}, timeout=240)
+    st = ctx.stall_sites(rb)
+    if st:
+        ctx.violation("deadlock:duplicate-burst:%s" % "+".join(st), "duplicate burst hung: goroutines blocked for good in %s" % ", ".join(st), {"dump": rb["out"][-6000:]})
+    for x in ([] if st else ctx.read_results(bp2)):
         if x.get("kind") == "prop":
             ctx.violation("concurrent:duplicate-burst:%s" % x["prop"], "duplicate burst, outcome equals no serial order: %s" % x["detail"], x)
         elif x.get("kind") == "summary":
